@@ -16,12 +16,17 @@ META = {
             "(mnemonic x registers x boundary immediates, RV32 and RV64); the property's own oracle runs on the real code: the "
             "specification decoder must recover mnemonic and operands from the produced word, and the repo's Decode must return the "
             "original instruction. ARM64: the encoder accepts nothing (panic TODO) - vacuous, shown by a harness line. "
-            "x86-64: exploration level - real x64.Encode bytes disassembled by objdump and compared after canonicalisation, plus a "
-            "small Lean model of REX/ModRM/SIB with a round-trip theorem.",
+            "x86-64: exploration level - real x64.Encode bytes (reg/reg, reg/imm, reg/mem and mem/reg with disp8/disp32, REX, SIB, "
+            "rip and absolute bases, unary forms) disassembled by objdump and by the repo's vendored x86asm and compared after "
+            "canonicalisation; plus a Lean model of REX/ModRM/SIB/disp for `op reg,[base+disp]` with a decode-of-encode theorem, "
+            "tied to the real bytes of every swept `mov r,[base+disp]` / `mov [base+disp],r`.",
     "note": "Trusted: Lean kernel; the reference tables are hand-written from the ISA manuals (RISC-V unprivileged spec; LoongArch "
             "reference manual vol.1 appendix B) - they are the specification; objdump (binutils) for x86-64. The tie between the "
             "Lean encoder model and Encode is the correspondence sweep (differential, not a proof). Differences between the two are "
-            "attributed by the oracle to a root-cause key; recorded findings suppress only their key.",
+            "attributed by the oracle to a root-cause key; recorded findings suppress only their key. Not modelled: RISC-V A/C "
+            "extensions (absent from the repo's table), RISC-V pseudo-instructions (every one is rejected by a panic on this tree; "
+            "their expansions from the ISA handbook are only in the python oracle), LoongArch LSX/LASX, x86-64 beyond the listed "
+            "operand form. FP rounding mode: rm = RNE or DYN both count as 'no rm given'.",
     "technique": "Lean 4 proof over regenerated opcode tables + hand-written ISA reference + differential sweep of the real encoders "
                  "+ spec-decoder / repo-decoder / objdump oracles",
 }
@@ -859,6 +864,9 @@ def run(ctx):
             parts = [x.strip() for x in r.split("|")]
             word = parts[0].split()[1]
             repo_dec, raw_in = parts[1], parts[2].split()[1:]
+            if len(parts) > 3 and parts[3] != "cpu-dispatch-ok":
+                ctx.violation("loong64:Encode:cpu-dispatch", "loong64.Encode(abi.LOONG64, %s, ...) does not return what EncodeLA64 returns (%s)" % (name, word),
+                              {"op": o, "impl": r})
             sd = lspec.get(word, "?")
             sym = None
             if not sd.startswith("D "):
